@@ -847,6 +847,7 @@ type vxC03SessCase struct {
 	EmptyPL  bool                `json:"empty_payload,omitempty"`
 	Advert   []string            `json:"advertised,omitempty"` // COMPRESSION values the server advertises (nil: snappy and lz4)
 	NoSkip   bool                `json:"no_skip,omitempty"`
+	ResCols  bool                `json:"res_cols,omitempty"` // the PREPARED answer describes a result column (else: empty result metadata, as for an INSERT or a conditional update)
 	Named    bool                `json:"named,omitempty"`
 	Binds    []vxC03Bind         `json:"binds,omitempty"`   // prepared
 	BatchTyp int                 `json:"batch_type,omitempty"`
@@ -906,14 +907,14 @@ func vxBindArgs(binds []vxC03Bind, named bool) ([]interface{}, []cqlspec.ReqValu
 func TestVxC03Session(t *testing.T) {
 	vx.Check(t, vx.Prop{
 		ID: "C03", Part: "TestVxC03Session",
-		Rule: "a real session (protocol 1..5, snappy or none, keyspace or none) executes one request through the public API: an unprepared query, a prepared query (statement text on one line, with newlines or tabs after the keywords, with leading white space, in lower or mixed case) with 1..4 bound values (int / text / nil / UnsetValue(v4+), optionally NamedValue(v3+)) or a batch (type, 0..3 entries with 0..4 values); options drawn: consistency (on the statement, ClusterConfig.Consistency or Session.SetConsistency), page size (set / default / 0), paging state, serial consistency (statement or ClusterConfig.SerialConsistency), timestamp (default now / explicit / disabled, ClusterConfig.DefaultTimestamp on or off), ClusterConfig.CQLVersion (STARTUP), tracing, custom payload (v4+), NoSkipMetadata; in a quarter of the cases the same Query / Batch object is executed twice; every frame the node received is decoded by lib/cqlspec and compared with what was asked; non-trivial = >= 2 options or a null/unset/named value; distinct by the case",
+		Rule: "a real session (protocol 1..5, snappy or none, keyspace or none) executes one request through the public API: an unprepared query, a prepared query (statement text on one line, with newlines or tabs after the keywords, with leading white space, in lower or mixed case) with 1..4 bound values (int / text / nil / UnsetValue(v4+), optionally NamedValue(v3+)) or a batch (type, 0..3 entries with 0..4 values); options drawn: consistency (on the statement, ClusterConfig.Consistency or Session.SetConsistency), page size (set / default / 0), paging state, serial consistency (statement or ClusterConfig.SerialConsistency), timestamp (default now / explicit / disabled, ClusterConfig.DefaultTimestamp on or off), ClusterConfig.CQLVersion (STARTUP), tracing, custom payload (v4+), NoSkipMetadata, PREPARED with or without result columns (skip_metadata may be asked for only with); in a quarter of the cases the same Query / Batch object is executed twice; every frame the node received is decoded by lib/cqlspec and compared with what was asked; non-trivial = >= 2 options or a null/unset/named value; distinct by the case",
 		Draw: func(t *rapid.T) interface{} {
 			c := &vxC03SessCase{Proto: rapid.IntRange(1, 5).Draw(t, "proto"), Snappy: rapid.Bool().Draw(t, "snappy"), Keyspace: rapid.Bool().Draw(t, "ks"),
 				Kind: rapid.SampledFrom([]string{"query", "prepared", "prepared", "batch"}).Draw(t, "kind"),
 				Cons: rapid.IntRange(0, 10).Draw(t, "cons"), PageSize: rapid.SampledFrom([]int{-1, -1, 0, 1, 77, 100000}).Draw(t, "pagesize"),
 				Serial: rapid.SampledFrom([]int{0, 0, 8, 9}).Draw(t, "serial"), TSMode: rapid.IntRange(0, 2).Draw(t, "tsmode"),
 				TS: rapid.OneOf(rapid.Int64(), rapid.Just(int64(-5)), rapid.Just(int64(1))).Draw(t, "ts"), Trace: rapid.IntRange(0, 3).Draw(t, "trace") == 0,
-				NoSkip: rapid.IntRange(0, 3).Draw(t, "noskip") == 0}
+				NoSkip: rapid.IntRange(0, 3).Draw(t, "noskip") == 0, ResCols: rapid.Bool().Draw(t, "rescols")}
 			if c.TS == 0 {
 				c.TS = 7
 			}
@@ -982,7 +983,11 @@ func TestVxC03Session(t *testing.T) {
 					}
 					id := hex.EncodeToString([]byte("id:" + rc.Req.Statement))
 					ids[rc.Req.Statement] = id
-					rc.Reply(&cqlspec.Response{Kind: "PREPARED", PreparedIDHex: id, Meta: &cqlspec.Metadata{Columns: bind}, ResultMeta: &cqlspec.Metadata{Columns: []cqlspec.Column{}}})
+					rm := &cqlspec.Metadata{NoMetadata: true, Columns: []cqlspec.Column{}}
+					if c.ResCols {
+						rm = &cqlspec.Metadata{Columns: []cqlspec.Column{{Keyspace: "ks1", Table: "t", Name: "r", Type: cqlspec.Scalar(cqlspec.Int)}}}
+					}
+					rc.Reply(&cqlspec.Response{Kind: "PREPARED", PreparedIDHex: id, Meta: &cqlspec.Metadata{Columns: bind}, ResultMeta: rm})
 					return
 				}
 				if rc.Req.Header.Flags&cqlspec.FlagTracing != 0 {
@@ -1091,7 +1096,8 @@ func TestVxC03Session(t *testing.T) {
 					args, ev = vxBindArgs(c.Binds, c.Named)
 					exp.Values = ev
 					exp.Kind, wantKind = "EXECUTE", "EXECUTE"
-					exp.SkipMeta = !c.NoSkip && c.Proto > 1
+					// the metadata of the rows may be left out only if the PREPARED answer described them
+					exp.SkipMeta = !c.NoSkip && c.Proto > 1 && c.ResCols
 				} else {
 					exp.Kind, wantKind, exp.Stmt = "QUERY", "QUERY", stmt
 				}
